@@ -683,3 +683,11 @@ add("C05", "separator match turned into a peek through the positional advance fl
 add("C05", "revert: UESCAPE character interpolated into a pattern unescaped", G,
     "            escape_pattern = re.compile(rf\"{re.escape(escape.name)}(\\d+)\")",
     "            escape_pattern = re.compile(rf\"{escape.name}(\\d+)\")", "C05.l")
+
+add("C05", "revert: JSON path filter start index unchecked", "sqlglot/jsonpath.py",
+    "            if start >= size:\n                raise ParseError(_error(\"Expected a filter or script expression\"))\n", "", "C05.m")
+add("C05", "forward peek loses its bound check", "sqlglot/parsers/teradata.py",
+    "            and self._index + 2 < len(self._tokens)\n", "", "C05.m")
+add("C05", "backward peek without the lower-bound test", P,
+    "        if self._index >= 2:\n            pre_volatile_token = self._tokens[self._index - 2]\n        else:\n            pre_volatile_token = None\n",
+    "        pre_volatile_token = self._tokens[self._index - 2]\n", "C05.m")
